@@ -6,7 +6,18 @@ From Maddy Require Export Lib.Base Err.Model.
 Local Open Scope Z_scope.
 
 (* per candidate, in the order tried: true = the failure was temporary *)
-Record case := { m_fails : list bool; m_stored : option (Z * ench); m_temp : bool }.
+(* [m_lookup = Some t]: the MX lookup itself failed, temporarily (t) or not - a time-out or
+   SERVFAIL, a name that does not exist, an answer the resolver cannot make sense of *)
+Record case := { m_lookup : option bool; m_fails : list bool; m_stored : option (Z * ench); m_temp : bool }.
+
+Definition mx_lookup_error (temporary : bool) : Z * ench :=
+  if temporary then (451, {| e0 := 4; e1 := 4; e2 := 4 |}) else (554, {| e0 := 5; e1 := 4; e2 := 4 |}).
+Definition expected (c : case) : (Z * ench) * bool :=
+  match m_lookup c with
+  | Some t => (mx_lookup_error t, t)
+  | None => (if last (m_fails c) false then (451, {| e0 := 4; e1 := 4; e2 := 0 |}) else (550, {| e0 := 5; e1 := 4; e2 := 0 |}),
+             last (m_fails c) false)
+  end.
 
 Definition no_usable_mx (fails : list bool) : Z * ench :=
   if last fails false then (451, {| e0 := 4; e1 := 4; e2 := 0 |}) else (550, {| e0 := 5; e1 := 4; e2 := 0 |}).
@@ -15,8 +26,8 @@ Definition agrees (c : case) : bool :=
   match m_stored c with
   | None => false
   | Some (code, e) =>
-      (Z.eqb code (fst (no_usable_mx (m_fails c))) && ench_eqb e (snd (no_usable_mx (m_fails c)))
-       && Bool.eqb (m_temp c) (last (m_fails c) false))%bool
+      (Z.eqb code (fst (fst (expected c))) && ench_eqb e (snd (fst (expected c)))
+       && Bool.eqb (m_temp c) (snd (expected c)))%bool
   end.
 Definition mismatches (cs : list case) : list N := find_idx (fun c => negb (agrees c)) cs.
 
@@ -35,7 +46,8 @@ Definition monitor_failures (cs : list case) : list (N * list N) :=
     | c :: t => match monitor c with [] => go (N.succ i) t | cl => (i, cl) :: go (N.succ i) t end
     end in go 0%N cs.
 Definition tag (c : case) : N :=
-  (N.of_nat (length (m_fails c)) + (if existsb (fun b => b) (m_fails c) then 8 else 0)
+  (N.of_nat (length (m_fails c)) + (match m_lookup c with Some true => 32 | Some false => 64 | None => 0 end)
+   + (if existsb (fun b => b) (m_fails c) then 8 else 0)
    + (if existsb negb (m_fails c) then 16 else 0))%N.
 Definition tags (cs : list case) : list N := map tag cs.
 
@@ -45,3 +57,8 @@ Lemma no_usable_mx_coherent fails :
   coherent {| r_code := fst r; r_ench := snd r; r_msg := [] |} = true /\
   Z.eqb (cls (fst r)) 4 = last fails false.
 Proof. unfold no_usable_mx. destruct (last fails false); split; reflexivity. Qed.
+
+Lemma mx_lookup_error_coherent t :
+  let r := mx_lookup_error t in
+  coherent {| r_code := fst r; r_ench := snd r; r_msg := [] |} = true /\ Z.eqb (cls (fst r)) 4 = t.
+Proof. destruct t; split; reflexivity. Qed.
